@@ -216,6 +216,46 @@ struct RuleF
     }
 };
 
+// ---------------------------------------------------------------- a user buffer whose iterators observe every access
+// `slack` = number of bytes after the text that may legitimately be read (1 for NUL-terminated pattern literals,
+// 0 for caller buffers).  Reads / iterator positions outside [0, len + slack) / [0, len] are logged as events.
+struct checked_buffer
+{
+    std::string data;
+    size_t len;
+    size_t slack;
+    explicit checked_buffer(const std::string& s, size_t slack = 0) : data(s), len(s.size()), slack(slack) { data.push_back('\0'); }
+
+    struct iterator
+    {
+        const checked_buffer* b = nullptr;
+        long i = 0;
+        char operator*() const
+        {
+            if (i < 0 || size_t(i) >= b->len + b->slack) { Event e; e.k = "oobread"; e.a = { i, long(b->len) }; tl_log.add(std::move(e)); }
+            return (i >= 0 && size_t(i) < b->data.size()) ? b->data[size_t(i)] : char(0);
+        }
+        static iterator mk(const checked_buffer* b, long i)
+        {
+            if (i < 0 || size_t(i) > b->len) { Event e; e.k = "oobiter"; e.a = { i, long(b->len) }; tl_log.add(std::move(e)); }
+            return iterator{ b, i };
+        }
+        iterator& operator++() { *this = mk(b, i + 1); return *this; }
+        iterator operator++(int) { iterator o(*this); *this = mk(b, i + 1); return o; }
+        bool operator==(const iterator& o) const { return i == o.i; }
+        bool operator!=(const iterator& o) const { return i != o.i; }
+        iterator& operator+=(size_t n) { *this = mk(b, i + long(n)); return *this; }
+        iterator operator+(size_t n) const { return mk(b, i + long(n)); }
+    };
+    iterator begin() const { return iterator{ this, 0 }; }
+    iterator end() const { return iterator{ this, long(len) }; }
+    std::string_view get_view(iterator s, iterator e) const
+    {
+        if (s.i < 0 || e.i < s.i || size_t(e.i) > len) { Event ev; ev.k = "oobview"; ev.a = { s.i, e.i, long(len) }; tl_log.add(std::move(ev)); return std::string_view(); }
+        return std::string_view(data.data() + s.i, size_t(e.i - s.i));
+    }
+};
+
 // ---------------------------------------------------------------- job / trace plumbing
 struct Job
 {
@@ -293,6 +333,7 @@ std::optional<Node> parse_with(const P& p, const Job& j, std::string& stream_tex
         return p.parse(o, buf, cs);
     };
     if (j.buf == 1) { buffers::string_buffer b{std::string(j.bytes)}; return go(b); }
+    if (j.buf == 3) { checked_buffer b(j.bytes, 0); return go(b); }
     buffers::string_view_buffer b{std::string_view(j.bytes)};
     return go(b);
 }
